@@ -117,8 +117,10 @@ def generate(family, rng, tier):
         # master word addresses: a few lines, a few tags (conflicts -> evictions)
         nlines_words = cachesize
         tags = [0, 1, 2, 5]
+        # (in four runs out of ten some accesses go to the upper half of the master's address space as well: same line, same low tag bits)
+        hi = (1 << 19) if rng.random() < 0.4 else 0
         ops = gen_ops(rng, n, dw_m // 8, lambda r: r.choice(tags) * nlines_words + r.randrange(min(nlines_words, 8)) +
-                      (r.choice([0, nlines_words - 1]) if r.random() < 0.1 else 0) * 0)
+                      (hi if r.random() < 0.3 else 0))
         p["tags"], p["span"] = tags, nlines_words
     elif family == "remap":
         p.update(dw_m=32, dw_s=32, origin=rng.choice([0, 0x1000, 0x40000000]), size=rng.choice([None, 0x100, 0x1000, 0x10000]),
